@@ -657,9 +657,9 @@ fn run_leaves(st: &mut Stats) {
                 let cfg = format!("(defcfg)\n(defsrc a b)\n(deflayer base (switch ((key-timing {n} {cmp} {thr})) x break () y break) b)\n");
                 for k in 1..=12u32 {
                     for w in [5u32, 150] {
-                        if n > k {
-                            continue; // fewer keys typed than the recency asks for: not specified
-                        }
+                        // fewer keys typed than the recency asks for: there is no such key press, so neither
+                        // "pressed more recently than" nor "pressed later than" holds
+                        let missing = n > k;
                         let mut h = vec![Ev::T(2)];
                         for i in 0..k {
                             h.push(Ev::P(kc("b")));
@@ -674,10 +674,10 @@ fn run_leaves(st: &mut Stats) {
                         h.push(Ev::T(3));
                         // age of the n-th most recent key press when a is pressed (+-3 of processing latency)
                         let age = w + 2 + (n - 1) * G;
-                        if (age as i64 - thr as i64).abs() < 10 {
+                        if !missing && (age as i64 - thr as i64).abs() < 10 {
                             continue;
                         }
-                        let truth = if cmp == "lt" { age < thr } else { age > thr };
+                        let truth = !missing && if cmp == "lt" { age < thr } else { age > thr };
                         let want = if truth { "X" } else { "Y" };
                         crate::par::announce(&cfg, &h);
                         st.evaluations += 1;
